@@ -33,7 +33,7 @@ def _vec(rng, values):
     return ",".join(W._fmt_num(v) for v in vals)
 
 
-def gen_command(rng, world, allow_f=True):
+def gen_command(rng, world, allow_f=True, auto_thresholds=False):
     """Returns {"files": [...], "groups": [[tok,...], ...]}; groups never repeat an option."""
     u = world["universe"]
     inputs = [p["name"] for p in world["inputs"]]
@@ -62,7 +62,10 @@ def gen_command(rng, world, allow_f=True):
             groups.append(["-m", rng.choice(DET_METRICS)])
         elif r2 < 0.78:
             groups.append(["-m", rng.choice(THR_METRICS)])
-            groups.append(["-r", _vec(rng, rng.sample(range(1, 200), rng.randint(1, 3)))])
+            if auto_thresholds and rng.random() < 0.4:
+                pass        # no -r: thresholds are derived from the data of the first file
+            else:
+                groups.append(["-r", _vec(rng, rng.sample(range(1, 200), rng.randint(1, 3)))])
         elif r2 < 0.83 and thr:
             groups.append(["-m", rng.choice(["bs", "bss", "bsrel"])])
             groups.append(["-r", W._fmt_num(rng.choice(thr))])
@@ -166,7 +169,9 @@ def plain(cmd):
 SYNTAX_REJECTS = [
     ("unknown_flag", [["-zz", "3"], ["--nosuchoption", "1"], ["-M", "mae"]]),
     ("malformed_vector", [["-l", "1,a"], ["-l", "1,,2"], ["-o", "1:2:3:4"], ["-l", "1:0:3"], ["-t", "3;4"], ["-o", ":"],
-                          ["-l", "x"], ["-d", "2012-01-01"]]),
+                          ["-l", "x"], ["-d", "2012-01-01"],
+                          # strings that Python's float() would accept but the documented syntax does not
+                          ["-l", "5e0"], ["-o", "nan"], ["-l", "+5"], ["-t", "1_0"], ["-l", "inf"], ["-o", "6E1"], ["-r", "1e1"]]),
     ("unknown_axis", [["-x", "foo"], ["-Tx", "foo"], ["-x", "Leadtime "], ["-x", "times"]]),
     ("unknown_aggregator", [["-agg", "foo"], ["-Tagg", "foo"], ["-agg", "avg"]]),
     ("range_length", [["-latrange", "5"], ["-lonrange", "1,2,3"], ["-elevrange", "1"], ["-obsrange", "1,2,3"],
@@ -363,7 +368,15 @@ def gen_spec_c18cli(seed, run, tier):
     n = rng.randint(3, 7) if tier == "quick" else rng.randint(3, 14)
     cmds = []
     for _ in range(n):
-        cmd = gen_command(rng, world)
+        cmd = gen_command(rng, world, auto_thresholds=True)
+        if rng.random() < 0.12:
+            # a threshold metric on the automatic-threshold path, along a data dimension
+            groups = [g for g in cmd["groups"] if g[0] not in ("-m", "-r", "-q", "-b", "-x") and not g[0].startswith("--list")
+                      and g[0] not in ("-hist", "-sort")]
+            groups += [["-m", rng.choice(["pc", "hit", "ets", "far", "threat"])], ["-x", rng.choice(["leadtime", "time", "location", "no"])]]
+            if not any(g[0] == "-type" for g in groups):
+                groups.append(["-type", "csv"])
+            cmd = {"files": cmd["files"], "groups": groups}
         cmds.append(plain(cmd))
     cases = [{"kind": "cmd", "argv": a} for a in cmds]
     if rng.random() < 0.5:
